@@ -25,7 +25,8 @@ SPEC['C02'] = ('Top-down build does no unnecessary work', ['Local', 'Local2', 'H
   ('C02_consistent_dep_continues', 'Local', 'check_deps_consistent', 'a dependency reported Consistent by its own checker does not stop validation'),
   ('C02_validation_in_order', 'Local', 'check_deps_app', 'dependencies are validated left to right in the recorded (creation) order: a consistent prefix is skipped over'),
 ], 'PARTIAL for the last clause (executed set is a subset of a from-scratch build for exact checkers): decided by correspondence + oracle.')
-SPEC['C03'] = ('Bottom-up build leaves every known task up to date', ['Local2', 'Findings', 'BuDone', 'BuJust', 'ExecInv', 'Cert', 'Stable', 'NoAbort', 'Valid', 'Sim', 'C01Witness', 'OnceAll', 'UpToDate', 'UpToDateWitness', 'GoodHist', 'TdValid'], [
+SPEC['C03'] = ('Bottom-up build leaves every known task up to date', ['Local2', 'Findings', 'BuDone', 'BuJust', 'ExecInv', 'Cert', 'Stable', 'NoAbort', 'Valid', 'Sim', 'C01Witness', 'OnceAll', 'UpToDate', 'UpToDateWitness', 'GoodHist', 'TdValid', 'NoBug4All', 'FullOut', 'UpToDateKnown'], [
+  ('C03_every_known_task_has_an_output_abort_free', 'FullOut', 'full_outputs_any_history', 'for ALL programs and checkers: along any history in which no build aborts (from any store with the store invariants in which every known task has an output; the empty store is one), every task that has a node has an output'),
   ('C03_witness_premises', 'UpToDateWitness', 'C03_witness_premises', 'non-vacuity of the two theorems above: for the generator/consumer instance of C01Witness.v (static class, exact = reflexive checkers), after a session that built both tasks every recorded dependency is consistent (AllValid, decided by the verified checker allvalidb), the generator input is then changed and reported'),
   ('C03_witness_does_real_work', 'UpToDateWitness', 'C03_witness_does_real_work', '... the bottom-up build re-executes the generator and the consumer (newest first [0; 1]), stores the new output 211, and requiring the consumer in a new session returns 211'),
   ('C03_every_scheduled_task_is_executed', 'BuDone', 'bottom_up_executes_all_scheduled', 'partial, GLOBAL: for ALL programs, checkers, fuel, worlds and change sets, in a bottom-up build that completes every scheduling event of a task is followed (later in the event stream) by an execution start of that task: nothing that was found affected -- directly by a reported change, or indirectly by the output or writes of a task executed in the build -- is left unexecuted (the build ends with an empty queue)'),
@@ -379,6 +380,33 @@ RAW['C03'] += [
   AllValid RC OC wh -> roots_below ord fuel ops ->
   AllValid RC OC (snd (run_history RC OC P always fuel init_world (h ++ [HSession ops])))""",
    'intros gen wck ord RC OC P sf always HS HWF HWO HRefl HReflO fuel h ops. exact (requires_keep_AllValid gen wck ord RC OC P sf HS HWF HWO HRefl HReflO always fuel h ops).'),
+]
+
+RAW['C03'] += [
+  ('C03_known_tasks_up_to_date_static_class',
+   'the property with "known to the Pie instance" read literally (the task has a node in the dependency store): same premises as C03_up_to_date_static_class; every KNOWN task, required afterwards, is not executed and returns its stored output (which C03_complete_static_class shows to be the from-scratch output). UpToDateKnown.v, from FullOut.v',
+   TOTAL_BINDERS + """  (forall c env r v, rc_check (RC c) env r v (sf c r v) = Consistent) ->
+  (forall c o, oc_check (OC c) o (oc_stamp (OC c) o) = true) ->
+  forall fuel h edits ch ops,
+  let wh := snd (run_history RC OC P always fuel init_world h) in
+  let w1 := snd (run_history RC OC P always fuel wh (edits_of edits)) in
+  AllValid RC OC wh -> (forall r, get_content w1 r <> get_content wh r -> In r ch) -> roots_below ord fuel ops ->
+  match session_bottom_up RC OC P fuel (new_session w1) ch with
+  | Done _ w' =>
+      (forall t, In t (roots ops) -> live (gr w') (tn t) = true) ->
+      let r := run_session RC OC P always fuel (new_session w') ops in
+      fst r = map (fun t => RDone (get_task_output w' t)) (roots ops) /\\ execs (rev (trace (snd r))) = [] /\\
+      forall r0, get_content (snd r) r0 = get_content w' r0
+  | Abort _ _ => False
+  | OutOfFuel => True
+  end""",
+   'intros gen wck ord RC OC P sf always HS HWF HWO HRefl HReflO fuel h edits ch ops. exact (bottom_up_leaves_known_tasks_up_to_date gen wck ord RC OC P sf always HS HWF HWO HRefl HReflO fuel h edits ch ops).'),
+  ('C03_every_known_task_has_an_output_static_class',
+   'FullOut.v: in the static class, after ANY history, every task that has a node in the store has an output ("known" and "has a cached output" coincide). Invariant for ALL programs: a task node is live only if the task has an output, or its execution is open, or a require of it is in progress',
+   TOTAL_BINDERS + """  forall fuel h,
+  let w := snd (run_history RC OC P always fuel init_world h) in
+  forall t, live (gr w) (tn t) = true -> get_task_output w t <> None""",
+   'intros gen wck ord RC OC P sf always HS HWF HWO fuel h. exact (static_class_every_known_task_has_an_output gen wck ord RC OC P sf always HS HWF HWO fuel h).'),
 ]
 
 RAW['C04'] = [
